@@ -6,7 +6,9 @@ CONSTANTS
   DiagCap = TRUE
   PathOnly = FALSE
   AbruptExit = FALSE
+  SpawnOnFull = FALSE
   StartMain = TRUE
+  ReqTail = 0
   URIs <- ThreeUris
   Alphabet <- DocAlphabet
 INVARIANTS OneResponsePerRequest EmitInv
